@@ -44,6 +44,7 @@ type World struct {
 
 // WorldOpts are concretisation-only dimensions: the spec says the answer does not depend on them.
 type WorldOpts struct {
+	AttrsBig   bool // with CommitAttrs: the committed .gitattributes is longer than 1024 bytes
 	RawBig     bool
 	FileRemote bool
 	Attr        string   // attributes for *.bin, e.g. "filter=lfs diff=lfs merge=lfs -text"
@@ -147,7 +148,20 @@ func NewWorldOpts(root, binDir string, seed int64, o WorldOpts) (*World, error) 
 		}
 	}
 	if o.CommitAttrs {
-		if err := os.WriteFile(filepath.Join(w.Clone, ".gitattributes"), []byte("*.bin "+w.Attr+"\n"), 0o644); err != nil {
+		attrs := "*.bin " + w.Attr + "\n"
+		if o.AttrsBig {
+			// more than 1024 bytes of attributes: unrelated patterns around the one that matters
+			var sb strings.Builder
+			for i := 0; i < 14; i++ {
+				fmt.Fprintf(&sb, "unrelated-dir-%02d/*.dat filter=lfs diff=lfs merge=lfs -text\n", i)
+			}
+			sb.WriteString(attrs)
+			for i := 14; i < 28; i++ {
+				fmt.Fprintf(&sb, "unrelated-dir-%02d/*.dat filter=lfs diff=lfs merge=lfs -text\n", i)
+			}
+			attrs = sb.String()
+		}
+		if err := os.WriteFile(filepath.Join(w.Clone, ".gitattributes"), []byte(attrs), 0o644); err != nil {
 			return nil, err
 		}
 		if _, err := w.git("add", ".gitattributes"); err != nil {
